@@ -413,6 +413,9 @@ def shard_real(seed, idx, n):
     for j in range(n):
         real_child_case(rng, res, busy=[0, 1, None][j % 3] if idx % 2 == 0 else None)
     limit_case(rng, res, fixed=LIMIT_GRID[idx % len(LIMIT_GRID)])       # (every combination once per run, whatever the seed)
+    # the status of a command ended by a signal, through in_toto_run: recorded (and written, and loadable) like any other
+    from harness.props import c11
+    c11.signal_exit_case(rng, res)
     return res
 
 
